@@ -66,8 +66,9 @@ impl CosetTable {
         self.part.find(c)
     }
 
-    fn merge(&mut self, a: usize, b: usize) {
+    fn merge(&mut self, a: usize, b: usize) -> Vec<usize> {
         let mut queue: VecDeque<(usize, usize)> = VecDeque::from([(a, b)]);
+        let mut merged = vec![];
 
         while let Some((a, b)) = queue.pop_front() {
             let a = self.canon(a);
@@ -88,8 +89,11 @@ impl CosetTable {
                     }
                 }
                 self.part.unite(a, b);
+                merged.push(self.canon(a));
             }
         }
+
+        merged
     }
 
     fn compact(&self) -> CosetTable {
@@ -206,17 +210,25 @@ fn scan_both_ways(table: &CosetTable, w: &FreeWord, start: usize)
 }
 
 
+// Returns the table entries that were filled in and still need following up.
 fn scan_and_connect(
     table: &mut CosetTable, w: &FreeWord, start: usize
-) {
+) -> Vec<(usize, isize)>
+{
     let (head, tail, gap, c) = scan_both_ways(table, w, start);
 
     if gap == 1 {
         #[cfg(feature = "verif")]
         crate::verif_hooks::hit("cosets.deduction");
         table.join(head, tail, c);
+        vec![(head, c), (tail, -c)]
     } else if gap == 0 && head != tail {
-        table.merge(head, tail);
+        let gens = table.all_gens();
+        table.merge(head, tail).iter()
+            .flat_map(|&row| gens.iter().map(move |&g| (row, g)))
+            .collect()
+    } else {
+        vec![]
     }
 }
 
@@ -244,15 +256,21 @@ pub fn coset_table(
                 #[cfg(feature = "verif")]
                 crate::verif_hooks::hit("cosets.definition");
                 table.join(i, n, g);
-                for w in &rels {
-                    if w[0] == g {
-                        let c = table.canon(i);
-                        scan_and_connect(&mut table, w, c);
+
+                // every new entry, whether defined, deduced or copied by a
+                // coincidence, closes the relators that pass through it
+                let mut pending = VecDeque::from([(i, g)]);
+                while let Some((row, gen)) = pending.pop_front() {
+                    for w in &rels {
+                        if w[0] == gen {
+                            let c = table.canon(row);
+                            pending.extend(scan_and_connect(&mut table, w, c));
+                        }
                     }
-                }
-                for w in subgroup_gens {
-                    let c = table.canon(0);
-                    scan_and_connect(&mut table, w, c);
+                    for w in subgroup_gens {
+                        let c = table.canon(0);
+                        pending.extend(scan_and_connect(&mut table, w, c));
+                    }
                 }
             }
         }
